@@ -20,6 +20,7 @@ LEVEL_TEXT += (' The stanza-level full-match lookup is `nodes_for_capture_index(
 
 LEVEL_TEXT += (" (C03.C) the query cursor is run from tree.root_node() with the caller's source bytes as the text provider of predicates; (C06.E) the checker's stanza and statement loops reach a check on every cycle, so every stanza's capture and full-match indices are resolved.")
 LEVEL_TEXT += (' (C03.R) Capture.stanza_capture_index / file_capture_index / quantifier are written only by Capture::check, with capture_index_for_name / capture_quantifiers of the stanza and file query.')
+LEVEL_TEXT += (' No successful return of Stanza::execute / execute_lazy without entering the statement loop.')
 S_FIELDS = {"stanza_capture_index", "full_match_stanza_capture_index"}
 F_FIELDS = {"file_capture_index", "full_match_file_capture_index"}
 
